@@ -95,7 +95,46 @@ def write(x, p):
                 hx.length(getattr(g, name)._data) == hi - lo)
 
 
+def alias(x, p):
+    """The data handed to write_cart_data is the live buffer of one of the
+    cart's own regions (game.gfx.to_bytes() returns it): copying a region
+    onto another address must still write the bytes the buffer held when the
+    call was made (memmove, not memcpy, semantics)."""
+    g = Game()
+    olds = {}
+    for name, cls, lo, hi in REGIONS:
+        m = x.mseq(name, hi - lo, hi - lo)
+        olds[name] = hx.snap(m)
+        setattr(g, name, hx.made(cls, m))
+    src = x.choice('source', [r[0] for r in REGIONS])
+    data = getattr(g, src).to_bytes()
+    before = olds[src]
+    n = len(before) if not x.symbolic else hx.length(before)
+    start = x.int('start', 0, 0x4300)
+    a = x.int('addr', 0, 0x42ff)
+    raised = False
+    try:
+        g.write_cart_data(data, start)
+    except ValueError:
+        raised = True
+    except Exception as e:
+        x.check('no unexpected exception', False, info=repr(e))
+        return
+    x.check('rejected iff past 0x4300', raised == (start + n > 0x4300))
+    for name, cls, lo, hi in REGIONS:
+        if lo <= a and a < hi:
+            new = getattr(g, name)._data[a - lo]
+            expect = olds[name][a - lo]
+            if not raised:
+                if start <= a and a < start + n:
+                    expect = before[a - start]
+            x.out('new', new)
+            x.check('content at fresh address = the buffer as it was when '
+                    'the call was made', new == expect)
+
+
 HARNESSES = [
     Harness('write', write, quick=[{'max': 0x4310, '_budget': 300}],
             logic='QF_AUFBV'),
+    Harness('alias', alias, quick=[{'_budget': 300}], logic='QF_AUFBV'),
 ]
